@@ -69,6 +69,33 @@ func (d *c19Dog) run(what string, in []byte, f func() string) (s string) {
 	return f()
 }
 
+// the awkward address classes every address-valued field is also generated with: unspecified,
+// all-ones, loopback, link-local and (IPv6) IPv4-mapped addresses
+func c19Awkward(r *vRand, six bool) netip.Addr {
+	if !six {
+		return netip.AddrFrom4([][4]byte{{0, 0, 0, 0}, {255, 255, 255, 255}, {127, 0, 0, 1}, {169, 254, byte(r.next()), byte(r.next())}, {224, 0, 0, 5}}[r.intn(5)])
+	}
+	a := [16]byte{}
+	switch r.intn(6) {
+	case 0: // ::
+	case 1: // ::ffff:a.b.c.d (IPv4-mapped)
+		a[10], a[11] = 0xff, 0xff
+		binary.BigEndian.PutUint32(a[12:], r.u32()|1<<24)
+	case 2: // ::ffff:0.0.0.0
+		a[10], a[11] = 0xff, 0xff
+	case 3: // link-local
+		a[0], a[1] = 0xfe, 0x80
+		binary.BigEndian.PutUint64(a[8:], r.next())
+	case 4:
+		for i := range a {
+			a[i] = 0xff
+		}
+	case 5:
+		a[15] = 1
+	}
+	return netip.AddrFrom16(a)
+}
+
 func c19Mutate(r *vRand, b []byte) []byte {
 	c := append([]byte(nil), b...)
 	n := 1 + r.intn(2)
@@ -190,6 +217,9 @@ func TestVerifC19(t *testing.T) {
 	}
 
 	rndAddr := func() netip.Addr {
+		if r.chance(25) {
+			return c19Awkward(r, r.chance(65))
+		}
 		if r.chance(50) {
 			var a [4]byte
 			binary.BigEndian.PutUint32(a[:], r.u32())
